@@ -506,4 +506,380 @@ theorem fromBuffer_toBytes (m : Marker) (es : List (Nat × PyT)) (fs : List (Nat
   simp only [toBytes]
   exact (refine_all _).2.1 m es fs h
 
+
+def markerOf (fs : List (Nat × TVal)) : Marker :=
+  if has32 fs then (if has64 fs then .ids (ids32 fs) else .all) else .none
+
+theorem pyOf_struct (fs : List (Nat × TVal)) : pyOf (.struct fs) = .dict (markerOf fs) (pyFields fs) := by
+  simp [pyOf, markerOf]
+
+/-! fuel the IDL-level reading of the read-back structure needs -/
+mutual
+  def need : TVal → Nat
+    | .list _ items => 2 + needItems items
+    | .struct fs => 16 + needFields fs
+    | _ => 1
+  def needItems : List TVal → Nat
+    | [] => 1
+    | v :: vs => 1 + max (need v) (needItems vs)
+  def needFields : List (Nat × TVal) → Nat
+    | [] => 1
+    | (_, v) :: rest => max (need v) (needFields rest)
+end
+
+theorem lookup_pyFields_lt (fs : List (Nat × TVal)) (prev i : Nat) (h : canonFields prev fs = true) (hi : i ≤ prev) :
+    lookup (pyFields fs) i = Option.none := by
+  induction fs generalizing prev with
+  | nil => simp [lookup, pyFields]
+  | cons p rest ih =>
+    obtain ⟨id, v⟩ := p
+    simp only [canonFields, Bool.and_eq_true, decide_eq_true_eq] at h
+    have hne : (id == i) = false := by simpa using (by omega : id ≠ i)
+    have := ih id h.2 (by omega)
+    simp only [lookup, pyFields, List.find?_cons, hne] at this ⊢
+    exact this
+
+theorem mem_ids32 (fs : List (Nat × TVal)) (i : Nat) : i ∈ ids32 fs ↔ ∃ n, (i, TVal.i32 n) ∈ fs := by
+  induction fs with
+  | nil => simp [ids32]
+  | cons p rest ih =>
+    obtain ⟨id, v⟩ := p
+    cases v <;> simp [ids32, ih]
+    · constructor
+      · rintro (rfl | ⟨n, h⟩)
+        · exact ⟨_, Or.inl ⟨rfl, rfl⟩⟩
+        · exact ⟨n, Or.inr h⟩
+      · rintro ⟨n, (⟨rfl, _⟩ | h)⟩
+        · exact Or.inl rfl
+        · exact Or.inr ⟨n, h⟩
+
+theorem has32_of_mem (fs : List (Nat × TVal)) (i : Nat) (n : Int) (h : (i, TVal.i32 n) ∈ fs) : has32 fs = true := by
+  induction fs with
+  | nil => cases h
+  | cons p rest ih =>
+    obtain ⟨id, v⟩ := p
+    rcases List.mem_cons.mp h with e | h'
+    · injection e with e1 e2; subst e2; simp [has32]
+    · simp [has32, ih h']
+
+theorem has64_of_mem (fs : List (Nat × TVal)) (i : Nat) (n : Int) (h : (i, TVal.i64 n) ∈ fs) : has64 fs = true := by
+  induction fs with
+  | nil => cases h
+  | cons p rest ih =>
+    obtain ⟨id, v⟩ := p
+    rcases List.mem_cons.mp h with e | h'
+    · injection e with e1 e2; subst e2; simp [has64]
+    · simp [has64, ih h']
+
+/-- ids of a canonical field list are pairwise different -/
+theorem canon_ids_gt (fs : List (Nat × TVal)) (prev : Nat) (h : canonFields prev fs = true) : ∀ p ∈ fs, prev < p.1 := by
+  induction fs generalizing prev with
+  | nil => intro p hp; cases hp
+  | cons q rest ih =>
+    obtain ⟨id, v⟩ := q
+    simp only [canonFields, Bool.and_eq_true, decide_eq_true_eq] at h
+    intro p hp
+    rcases List.mem_cons.mp hp with rfl | hp'
+    · exact h.1.1.1
+    · have := ih id h.2 p hp'; omega
+
+
+/-- the serialiser's loop steps over ids that are not present -/
+theorem specFields_skip (m : Marker) (entries : List (Nat × PyT)) : ∀ (k fuel steps i : Nat),
+    (∀ j, i ≤ j → j < i + k → lookup entries j = Option.none) → k ≤ fuel →
+    specFields fuel m entries (k + steps) i = specFields (fuel - k) m entries steps (i + k) := by
+  intro k
+  induction k with
+  | zero => intro fuel steps i _ _; simp
+  | succ k ih =>
+    intro fuel steps i hmiss hf
+    obtain ⟨f, rfl⟩ : ∃ f, fuel = f + 1 := ⟨fuel - 1, by omega⟩
+    have h0 : lookup entries i = Option.none := hmiss i (Nat.le_refl _) (by omega)
+    have e : k + 1 + steps = (k + steps) + 1 := by omega
+    rw [e]
+    simp only [specFields, h0]
+    rw [ih f steps (i + 1) (fun j h1 h2 => hmiss j (by omega) (by omega)) (by omega)]
+    have e1 : f + 1 - (k + 1) = f - k := by omega
+    have e2 : i + 1 + k = i + (k + 1) := by omega
+    rw [e1, e2]
+
+theorem canon_unique (fs : List (Nat × TVal)) (prev : Nat) (h : canonFields prev fs = true) :
+    ∀ p ∈ fs, ∀ q ∈ fs, p.1 = q.1 → p = q := by
+  induction fs generalizing prev with
+  | nil => intro p hp; cases hp
+  | cons a rest ih =>
+    obtain ⟨id, v⟩ := a
+    have h' := h
+    simp only [canonFields, Bool.and_eq_true, decide_eq_true_eq] at h'
+    have hgt := canon_ids_gt rest id h'.2
+    intro p hp q hq e
+    rcases List.mem_cons.mp hp with rfl | hp' <;> rcases List.mem_cons.mp hq with rfl | hq'
+    · rfl
+    · have := hgt q hq'; simp only at e; omega
+    · have := hgt p hp'; simp only at e; omega
+    · exact ih id h'.2 p hp' q hq' e
+
+theorem lookup_hit (fs : List (Nat × TVal)) (prev : Nat) (h : canonFields prev fs = true) :
+    ∀ p ∈ fs, lookup (pyFields fs) p.1 = some (pyOf p.2) := by
+  induction fs generalizing prev with
+  | nil => intro p hp; cases hp
+  | cons a rest ih =>
+    obtain ⟨id, v⟩ := a
+    have h' := h
+    simp only [canonFields, Bool.and_eq_true, decide_eq_true_eq] at h'
+    have hgt := canon_ids_gt rest id h'.2
+    intro p hp
+    rcases List.mem_cons.mp hp with rfl | hp'
+    · simp [lookup, pyFields]
+    · have hne : (id == p.1) = false := by
+        have := hgt p hp'
+        simpa using (by omega : id ≠ p.1)
+      have := ih id h'.2 p hp'
+      simp only [lookup, pyFields, List.find?_cons, hne] at this ⊢
+      exact this
+
+theorem lookup_miss (fs : List (Nat × TVal)) (j : Nat) (h : ∀ p ∈ fs, p.1 ≠ j) : lookup (pyFields fs) j = Option.none := by
+  induction fs with
+  | nil => simp [lookup, pyFields]
+  | cons a rest ih =>
+    obtain ⟨id, v⟩ := a
+    have hne : (id == j) = false := by simpa using h (id, v) List.mem_cons_self
+    have := ih (fun p hp => h p (List.mem_cons_of_mem _ hp))
+    simp only [lookup, pyFields, List.find?_cons, hne] at this ⊢
+    exact this
+
+theorem marker_i32 (fs : List (Nat × TVal)) (prev : Nat) (h : canonFields prev fs = true) (i : Nat) (n : Int)
+    (hm : (i, TVal.i32 n) ∈ fs) : isI32 (markerOf fs) i = true := by
+  have h32 := has32_of_mem fs i n hm
+  simp only [markerOf, h32, if_true]
+  split
+  · simp only [isI32, List.contains_eq_mem, decide_eq_true_eq]
+    exact (mem_ids32 fs i).mpr ⟨n, hm⟩
+  · rfl
+
+theorem marker_i64 (fs : List (Nat × TVal)) (prev : Nat) (h : canonFields prev fs = true) (i : Nat) (n : Int)
+    (hm : (i, TVal.i64 n) ∈ fs) : isI32 (markerOf fs) i = false := by
+  have h64 := has64_of_mem fs i n hm
+  simp only [markerOf, h64, if_true]
+  split
+  · simp only [isI32, List.contains_eq_mem, decide_eq_false_iff_not]
+    intro hc
+    obtain ⟨n', hn'⟩ := (mem_ids32 fs i).mp hc
+    have := canon_unique fs prev h _ hm _ hn' rfl
+    injection this with _ e2
+    cases e2
+  · rfl
+
+
+def kindOfTy (ety : Nat) : Nat := if ety = 5 then 0 else if ety = 8 then 1 else 2
+
+/-- what the fields theorem needs to know about the whole field list the loop looks fields up in -/
+structure LookOk (all : List (Nat × TVal)) (m : Marker) (rest : List (Nat × TVal)) (prev : Nat) : Prop where
+  hit : ∀ p ∈ rest, lookup (pyFields all) p.1 = some (pyOf p.2)
+  miss : ∀ j, prev < j → (∀ p ∈ rest, p.1 ≠ j) → lookup (pyFields all) j = Option.none
+  m32 : ∀ p ∈ rest, ∀ n, p.2 = TVal.i32 n → isI32 m p.1 = true
+  m64 : ∀ p ∈ rest, ∀ n, p.2 = TVal.i64 n → isI32 m p.1 = false
+
+theorem LookOk.tail {all m id v rest prev} (h : LookOk all m ((id, v) :: rest) prev) (hp : prev < id) : LookOk all m rest id :=
+  ⟨fun p hp' => h.hit p (List.mem_cons_of_mem _ hp'),
+   fun j hj hne => h.miss j (by omega) (fun p hp' => by
+     rcases List.mem_cons.mp hp' with rfl | hp''
+     · simp only; omega
+     · exact hne p hp''),
+   fun p hp' => h.m32 p (List.mem_cons_of_mem _ hp'),
+   fun p hp' => h.m64 p (List.mem_cons_of_mem _ hp')⟩
+
+theorem lookOk_self (fs : List (Nat × TVal)) (h : canonFields 0 fs = true) : LookOk fs (markerOf fs) fs 0 :=
+  ⟨lookup_hit fs 0 h, fun j _ hne => lookup_miss fs j hne,
+   fun p hp n e => marker_i32 fs 0 h p.1 n (by rw [← e]; exact hp),
+   fun p hp n e => marker_i64 fs 0 h p.1 n (by rw [← e]; exact hp)⟩
+
+mutual
+  theorem specItems_py (ety : Nat) : ∀ (items : List TVal), canonItems ety items = true → ∀ (fuel : Nat), needItems items ≤ fuel →
+      specListItems fuel (kindOfTy ety) (pyItems items) = some items
+    | [], _, fuel, hf => by
+      obtain ⟨f, rfl⟩ : ∃ f, fuel = f + 1 := ⟨fuel - 1, by simp [needItems] at hf; omega⟩
+      simp [specListItems, pyItems]
+    | v :: vs, hok, fuel, hf => by
+      obtain ⟨f, rfl⟩ : ∃ f, fuel = f + 1 := ⟨fuel - 1, by simp [needItems] at hf; omega⟩
+      have hs1 : need v ≤ f := by simp only [needItems] at hf; omega
+      have hs2 : needItems vs ≤ f := by simp only [needItems] at hf; omega
+      cases v with
+      | i32 n =>
+        simp only [canonItems, Bool.and_eq_true, decide_eq_true_eq] at hok
+        obtain ⟨⟨rfl, hn⟩, hvs⟩ := hok
+        have ih2 := specItems_py 5 vs hvs f hs2
+        simp only [kindOfTy, if_true] at ih2 ⊢
+        simp only [pyItems, specListItems, hn, if_true, ih2]
+      | binary bs =>
+        simp only [canonItems, Bool.and_eq_true, decide_eq_true_eq] at hok
+        obtain ⟨⟨rfl, hn⟩, hvs⟩ := hok
+        have ih2 := specItems_py 8 vs hvs f hs2
+        have e : kindOfTy 8 = 1 := by decide
+        rw [e] at ih2 ⊢
+        simp only [pyItems, specListItems, hn, if_true, ih2]
+      | struct fs =>
+        simp only [canonItems, Bool.and_eq_true, decide_eq_true_eq] at hok
+        obtain ⟨⟨rfl, hfs⟩, hvs⟩ := hok
+        have ih2 := specItems_py 12 vs hvs f hs2
+        have e : kindOfTy 12 = 2 := by decide
+        rw [e] at ih2 ⊢
+        obtain ⟨g, rfl⟩ : ∃ g, f = g + 1 := ⟨f - 1, by simp only [need] at hs1; omega⟩
+        have hnf : 13 + needFields fs ≤ g := by simp only [need] at hs1; omega
+        have ih1 := specFields_py fs 0 hfs fs (markerOf fs) (lookOk_self fs hfs) 1 13 g (by omega)
+          (fun p hp => canon_ids_gt fs 0 hfs p hp) (by decide) hnf
+        have ht : specThrift (g + 1) (markerOf fs) (pyFields fs) = some fs := by
+          simp only [specThrift]; exact ih1
+        simp only [pyItems, pyOf_struct, specListItems, ht, Option.map_some, ih2]
+      | bool b => simp [canonItems] at hok
+      | i8 n => simp [canonItems] at hok
+      | i16 n => simp [canonItems] at hok
+      | i64 n => simp [canonItems] at hok
+      | double b => simp [canonItems] at hok
+      | list e its => simp [canonItems] at hok
+  theorem specFields_py : ∀ (rest : List (Nat × TVal)) (prev : Nat), canonFields prev rest = true →
+      ∀ (all : List (Nat × TVal)) (m : Marker), LookOk all m rest prev → ∀ (i steps fuel : Nat), prev < i →
+      (∀ p ∈ rest, i ≤ p.1) → i + steps = PqV.Gen.Specs.loopHi → steps + needFields rest ≤ fuel →
+      specFields fuel m (pyFields all) steps i = some rest
+    | [], prev, _, all, m, hl, i, steps, fuel, hp, _, _, hf => by
+      have hskip := specFields_skip m (pyFields all) steps fuel 0 i
+        (fun j h1 _ => hl.miss j (by omega) (fun p hp' => by cases hp')) (by simp only [needFields] at hf; omega)
+      simp only [Nat.add_zero] at hskip
+      rw [hskip]
+      obtain ⟨f, hf'⟩ : ∃ f, fuel - steps = f + 1 := ⟨fuel - steps - 1, by simp only [needFields] at hf; omega⟩
+      rw [hf']
+      simp [specFields]
+    | (id, v) :: rest, prev, hok, all, m, hl, i, steps, fuel, hp, hge, hsum, hf => by
+      have hok' := hok
+      simp only [canonFields, Bool.and_eq_true, decide_eq_true_eq] at hok'
+      obtain ⟨⟨⟨hpid, hid⟩, hv⟩, hrest⟩ := hok'
+      have hi : i ≤ id := hge (id, v) List.mem_cons_self
+      have hgt := canon_ids_gt rest id hrest
+      -- skip the absent ids i .. id-1
+      obtain ⟨s, hs⟩ : ∃ s, steps = (id - i) + (s + 1) := ⟨steps - (id - i) - 1, by omega⟩
+      have hskip := specFields_skip m (pyFields all) (id - i) fuel (s + 1) i
+        (fun j h1 h2 => hl.miss j (by omega) (fun p hp' => by
+          rcases List.mem_cons.mp hp' with rfl | hp''
+          · simp only; omega
+          · have := hgt p hp''; omega)) (by omega)
+      rw [hs, hskip]
+      have hii : i + (id - i) = id := by omega
+      rw [hii]
+      obtain ⟨f, hf'⟩ : ∃ f, fuel - (id - i) = f + 1 := ⟨fuel - (id - i) - 1, by omega⟩
+      rw [hf']
+      have hnv : need v ≤ f := by simp only [needFields] at hf; omega
+      have hnr : s + needFields rest ≤ f := by simp only [needFields] at hf; omega
+      have hlook := hl.hit (id, v) List.mem_cons_self
+      simp only at hlook
+      have ih2 := specFields_py rest id hrest all m (hl.tail hpid) (id + 1) s f (by omega)
+        (fun p hp' => by have := hgt p hp'; omega) (by omega) hnr
+      cases v with
+      | bool b =>
+        simp only [pyOf] at hlook
+        simp only [specFields, hlook, ih2]
+      | i32 n =>
+        have hn : okInt n = true := by simpa [canon] using hv
+        have h32 := hl.m32 (id, .i32 n) List.mem_cons_self n rfl
+        simp only [pyOf] at hlook
+        simp only at h32
+        simp only [specFields, hlook, hn, if_true, h32, ih2]
+      | i64 n =>
+        have hn : okInt n = true := by simpa [canon] using hv
+        have h64 := hl.m64 (id, .i64 n) List.mem_cons_self n rfl
+        simp only [pyOf] at hlook
+        simp only at h64
+        simp only [specFields, hlook, hn, if_true, h64, ih2]
+        simp
+      | double bits =>
+        have hb : bits < 2 ^ 64 := by simpa [canon] using hv
+        simp only [pyOf] at hlook
+        simp only [specFields, hlook, hb, if_true, ih2]
+      | binary bs =>
+        have hb : bs.length < 2 ^ 64 := by simpa [canon] using hv
+        simp only [pyOf] at hlook
+        simp only [specFields, hlook, hb, if_true, ih2]
+      | list ety items =>
+        simp only [canon, Bool.and_eq_true, decide_eq_true_eq] at hv
+        obtain ⟨⟨hne, hlen⟩, hitems⟩ := hv
+        obtain ⟨g, rfl⟩ : ∃ g, f = g + 1 := ⟨f - 1, by simp only [need] at hnv; omega⟩
+        have hni : needItems items ≤ g := by simp only [need] at hnv; omega
+        have ih1 := specItems_py ety items hitems g hni
+        simp only [pyOf] at hlook
+        -- the list's element type is the first item's
+        have hlist : specList (g + 1) (pyItems items) = some (TVal.list ety items) := by
+          cases items with
+          | nil => exact absurd rfl hne
+          | cons a t =>
+            have hlen' : (pyItems (a :: t)).length < 2 ^ 64 := by
+              have : ∀ l : List TVal, (pyItems l).length = l.length := by
+                intro l; induction l with
+                | nil => rfl
+                | cons x xs ihx => simp [pyItems, ihx]
+              rw [this]; exact hlen
+            cases a with
+            | i32 n =>
+              have e : ety = 5 := by simp [canonItems] at hitems; exact hitems.1.1
+              subst e
+              simp only [pyItems] at ih1 hlen' ⊢
+              rw [specList_eq]
+              simp only [hlen', if_true, kindOf, tyOf]
+              simp only [kindOfTy, if_true] at ih1
+              rw [ih1]; rfl
+            | binary bs =>
+              have e : ety = 8 := by simp [canonItems] at hitems; exact hitems.1.1
+              subst e
+              simp only [pyItems] at ih1 hlen' ⊢
+              rw [specList_eq]
+              simp only [hlen', if_true, kindOf, tyOf]
+              have e1 : kindOfTy 8 = 1 := by decide
+              rw [e1] at ih1
+              rw [ih1]; rfl
+            | struct fs' =>
+              have e : ety = 12 := by simp [canonItems] at hitems; exact hitems.1.1
+              subst e
+              simp only [pyItems, pyOf_struct] at ih1 hlen' ⊢
+              rw [specList_eq]
+              simp only [hlen', if_true, kindOf, tyOf]
+              have e1 : kindOfTy 12 = 2 := by decide
+              rw [e1] at ih1
+              rw [ih1]; rfl
+            | bool b => simp [canonItems] at hitems
+            | i8 n => simp [canonItems] at hitems
+            | i16 n => simp [canonItems] at hitems
+            | i64 n => simp [canonItems] at hitems
+            | double b => simp [canonItems] at hitems
+            | list e its => simp [canonItems] at hitems
+        simp only [specFields, hlook, hlist, ih2]
+      | struct fsv =>
+        have hfs : canonFields 0 fsv = true := by simpa [canon] using hv
+        obtain ⟨g, rfl⟩ : ∃ g, f = g + 1 := ⟨f - 1, by simp only [need] at hnv; omega⟩
+        have hnf : 13 + needFields fsv ≤ g := by simp only [need] at hnv; omega
+        have ih1 := specFields_py fsv 0 hfs fsv (markerOf fsv) (lookOk_self fsv hfs) 1 13 g (by omega)
+          (fun p hp' => canon_ids_gt fsv 0 hfs p hp') (by decide) hnf
+        have ht : specThrift (g + 1) (markerOf fsv) (pyFields fsv) = some fsv := by
+          simp only [specThrift]; exact ih1
+        rw [pyOf_struct] at hlook
+        simp only [specFields, hlook, ht, Option.map_some, ih2]
+      | i8 n => simp [canon] at hv
+      | i16 n => simp [canon] at hv
+end
+
+
+/-- **nothing of the IDL-level reading is lost by write + read**: the structure `from_buffer` returns
+    for the bytes of `to_bytes x` has the same IDL-level reading as `x` -/
+theorem spec_of_readback (fs : List (Nat × TVal)) (hc : canonFields 0 fs = true) (fuel : Nat) (hf : 15 + needFields fs ≤ fuel) :
+    specThrift fuel (markerOf fs) (pyFields fs) = some fs := by
+  obtain ⟨g, rfl⟩ : ∃ g, fuel = g + 1 := ⟨fuel - 1, by omega⟩
+  simp only [specThrift]
+  exact specFields_py fs 0 hc fs (markerOf fs) (lookOk_self fs hc) 1 13 g (by omega)
+    (fun p hp => canon_ids_gt fs 0 hc p hp) (by decide) (by omega)
+
+theorem roundtrip_same_reading (m : Marker) (es : List (Nat × PyT)) (fs : List (Nat × TVal)) (tail : List Nat)
+    (h : specThrift ((PyT.dict m es).weight + 2) m es = some fs) :
+    ∃ out m' es', toBytes (.dict m es) = some out ∧ fromBuffer (out ++ tail) = some (.dict m' es', tail) ∧
+      ∀ fuel, 15 + needFields fs ≤ fuel → specThrift fuel m' es' = some fs := by
+  obtain ⟨out, h1, h2⟩ := fromBuffer_toBytes m es fs tail h
+  rw [pyOf_struct] at h2
+  exact ⟨out, _, _, h1, h2, fun fuel hf => spec_of_readback fs ((spec_canon_all _).2.1 m es fs h) fuel hf⟩
+
 end PqV.Impl.ThriftSer
